@@ -93,7 +93,30 @@ def linear_system(rng, n, names, nlines):
                                        'contradictory_complement' if pair in (frozenset(('>', '<=')), frozenset(('<', '>='))) else
                                        'pinch' if pair == frozenset(('<=', '>=')) else 'other')
             text.append('%s %s %s' % (' + '.join('%s*%s' % (fmt(c), v) for c, v in zip(a2, names) if c != 0), cmp2, fmt(b2)))
+    if linear_system.last_pair is None:
+        linear_system.last_pair = classify_pairs(rows)         # the same kinds of pair also arise by chance (e.g. two ordering lines)
     return rows, '\n'.join(text)
+
+
+def classify_pairs(rows):
+    """two inequality lines that bound ONE expression (proportional coefficient vectors and constants): which kind of pair?"""
+    FLIP = {'<=': '>=', '>=': '<=', '<': '>', '>': '<'}
+    found = None
+    for i in range(len(rows)):
+        for j in range(i + 1, len(rows)):
+            (a1, c1, b1), (a2, c2, b2) = rows[i], rows[j]
+            if c1 == '=' or c2 == '=': continue
+            k = next((q for q, v in enumerate(a1) if v), None)
+            if k is None or not a2[k]: continue
+            sc = a2[k] / a1[k]
+            if not all(abs(v2 - sc * v1) <= 1e-12 * max(1.0, abs(v2)) for v1, v2 in zip(a1, a2)) or abs(b2 - sc * b1) > 1e-12 * max(1.0, abs(b2)): continue
+            cc2 = c2 if sc > 0 else FLIP[c2]                   # the second line expressed on the first line's expression
+            pair = frozenset((c1, cc2))
+            kind = ('contradictory_strict' if pair == frozenset(('<', '>')) else
+                    'contradictory_complement' if pair in (frozenset(('>', '<=')), frozenset(('<', '>='))) else
+                    'pinch' if pair == frozenset(('<=', '>=')) else 'other')
+            if found in (None, 'other'): found = kind
+    return found
 
 
 def sample_points(rng, n, rows, k):
